@@ -1,1 +1,179 @@
-/- property theorems for C11 (filled in below) -/
+/-
+C11 — derived data stays coherent with primary data; queries do not move objects.
+Model: `GT.Model.ObjState` (state machine over `ND` arrays; `__setitem__` and `combine` as
+repaired, D6).  Helper lemmas: `GT.Lemmas.ObjState`, `GT.Lemmas.Query`.  Only property
+theorems and non-vacuity examples here.  Everything holds for all composite ranks/shapes.
+-/
+import GT.Lemmas.ObjState
+import GT.Lemmas.Query
+import Mathlib.Algebra.Field.Rat
+import Mathlib.Algebra.Order.Ring.Rat
+
+set_option linter.unusedSectionVars false
+set_option linter.unusedSimpArgs false
+set_option linter.unusedVariables false
+
+open Matrix
+
+namespace GT.C11
+open GT GT.Act GT.Act.ND
+
+section inv
+variable {K : Type} [Field K] [Inhabited K] (r : K → K)
+
+/-! ## `Inv o`: stored `aux ~ computeAux kind proj`, row by row up to a non-zero scalar -/
+
+/-- construction from primary data establishes the invariant (every class) -/
+theorem inv_construct (kind : Kind) (p : ND K) {o : List ℕ} {t n : ℕ} (hp : p.shape = o ++ [t, n]) :
+    Inv r (Obj.construct r kind p) := inv_of_construct r kind p hp
+
+/-- … also for points (unit rank 1, no derived data), whatever the shape -/
+theorem inv_construct_noaux {kind : Kind} (hk : kind.auxNdims = 0) (p : ND K) :
+    Inv r (Obj.construct r kind p) := Or.inl ⟨hk, computeAux_none r hk p⟩
+
+/-- the vectorised numpy form of a polygon's edges (`np.stack([v, np.roll(v,-1,-2)], -2)`) is the
+unit-wise `computeAux` -/
+theorem computeAux_polygon_literal (p : ND K) {o : List ℕ} {t n : ℕ} (hp : p.shape = o ++ [t, n]) :
+    ∃ a c, computeAuxPolygonLit p = .ok a ∧ computeAux r .polygon p = some c ∧ a.shape = c.shape ∧
+      ∀ ix, Valid a.shape ix → a.get ix = c.get ix := computeAuxPolygonLit_spec r p hp
+
+theorem inv_step_copy {X Y : Obj K} (hX : Inv r X) (h : X.step r .copy = .ok Y) : Inv r Y :=
+  GT.Act.inv_step_copy r hX h
+
+theorem inv_step_astype {X Y : Obj K} (hX : Inv r X) (h : X.step r .astype = .ok Y) : Inv r Y :=
+  GT.Act.inv_step_astype r hX h
+
+/-- `apply`: C03's equivariance; for segments and tangent vectors the matrix must preserve the
+Minkowski form (`OpOk`), for polygons any square matrix will do -/
+theorem inv_step_apply {X Y : Obj K} {A : ND K} (hX : Inv r X) (hA : OpOk r X.kind (.apply A))
+    (h : X.step r (.apply A) = .ok Y) : Inv r Y := GT.Act.inv_step_apply r hX hA h
+
+theorem inv_step_reshape {X Y : Obj K} {s : List ℕ} (hX : Inv r X)
+    (h : X.step r (.reshape s) = .ok Y) : Inv r Y := GT.Act.inv_step_reshape r hX h
+
+theorem inv_step_flatten {X Y : Obj K} (hX : Inv r X) (h : X.step r .flatten = .ok Y) : Inv r Y :=
+  GT.Act.inv_step_flatten r hX h
+
+theorem inv_step_index {X Y : Obj K} {k : ℕ} (hX : Inv r X) (h : X.step r (.index k) = .ok Y) :
+    Inv r Y := GT.Act.inv_step_index r hX h
+
+/-- item assignment — of the REPAIRED code (derived data recomputed) -/
+theorem inv_step_setItem {X Y : Obj K} {k : ℕ} {v : ND K} (hX : Inv r X)
+    (h : X.step r (.setItem k v) = .ok Y) : Inv r Y := GT.Act.inv_step_setItem r hX h
+
+theorem inv_step_stack {X Y : Obj K} {others : List (Obj K)} (hX : Inv r X)
+    (hO : OpOk r X.kind (.stack others)) (h : X.step r (.stack others) = .ok Y) : Inv r Y :=
+  GT.Act.inv_step_stack r hX hO h
+
+/-- `combine` — of the REPAIRED code (blocks concatenated separately) -/
+theorem inv_step_combine {X Y : Obj K} {others : List (Obj K)} (hX : Inv r X)
+    (hO : OpOk r X.kind (.combine others)) (h : X.step r (.combine others) = .ok Y) : Inv r Y :=
+  GT.Act.inv_step_combine r hX hO h
+
+/-- every operation preserves the invariant and the class -/
+theorem inv_step {X Y : Obj K} {op : ObjOp K} (hX : Inv r X) (hop : OpOk r X.kind op)
+    (h : X.step r op = .ok Y) : Inv r Y ∧ Y.kind = X.kind :=
+  ⟨inv_step_all r hX hop h, step_kind r h⟩
+
+/-- **histories**: after any sequence of construction, copying, transformation, reshaping,
+flattening, indexing, item assignment, stacking, combining and dtype conversion the stored
+derived data is projectively what is recomputed from the primary data -/
+theorem inv_history {X Z : Obj K} {ops : List (ObjOp K)} (hX : Inv r X)
+    (hops : ∀ op ∈ ops, OpOk r X.kind op) (h : X.run r ops = .ok Z) : Inv r Z ∧ Z.kind = X.kind :=
+  inv_run r hX hops h
+
+end inv
+
+/-- non-vacuity: a history on a 2×1 composite of triangles over ℚ runs through the very
+definitions above (flatten, reshape, index, set item, stack, combine, copy), and its hypotheses
+(`OpOk`) are met by `inv_construct` -/
+example :
+    let tri : ND ℚ := ofFn [2, 1, 3, 2] (fun ix => ((ix.foldl (fun s x => 3 * s + x + 1) 0 : ℕ) : ℚ))
+    let X : Obj ℚ := Obj.construct id .polygon tri
+    let Y : Obj ℚ := Obj.construct id .polygon (ofFn [3, 2] (fun ix => ((ix.foldl (fun s x => 2 * s + x) 1 : ℕ) : ℚ)))
+    ((X.run id [.flatten, .reshape [1, 2], .index 0, .setItem 1 (ofFn [3, 2] fun _ => (1 : ℚ)), .copy,
+        .stack [X.step id .flatten |>.toOption.getD X], .astype, .combine [Y]]).toOption.map
+      fun Z => (Z.proj.shape, Z.aux.map (·.shape))) = some ([5, 3, 2], some [5, 3, 2, 2]) := by
+  decide +kernel
+
+section query
+variable {K : Type} [Field K] [LinearOrder K] [IsStrictOrderedRing K] [Inhabited K] {r : K → K}
+
+/-! ## queries: every stored row changes at most by a POSITIVE scalar -/
+
+/-- coordinates in the Klein / projective / Poincaré / half-space models, circle parameters, fixed
+points: nothing is written -/
+theorem query_nowrite (X : Obj K) :
+    X.afterQuery r .coords = X ∧ X.afterQuery r .circleParameters = X ∧ X.afterQuery r .fixedPoints = X :=
+  ⟨rfl, rfl, rfl⟩
+
+/-- `utils.normalize` on one row: divides by `√|⟨x,x⟩| > 0` or leaves a null row alone -/
+theorem normalize_row_posScale (hr : RootNonneg r) {n : ℕ} (x : Fin n → K) :
+    PosProjEq (normalizeRow r x) x := normalizeRow_pos hr x
+
+/-- the unit-level write is C01's `normalize` (same Minkowski form, same formula) -/
+theorem normalizeRow_is_normalize (r : K → K) {m : ℕ} (x : Fin (m + 1) → K) :
+    normalizeRow r x = GT.normalize r x := normalizeRow_eq_normalize r x
+
+/-- hyperboloid coordinates, distance, `origin_to` on points: the stored rows are rescaled
+positively, derived data is untouched -/
+theorem query_point_projEq (hr : RootNonneg r) (X : Obj K) {s : List ℕ} {m : ℕ}
+    (hp : X.proj.shape = s ++ [m]) (q : Query)
+    (hq : q = .hyperboloidCoords ∨ q = .distance ∨ q = .originTo) :
+    RowsPosEq (X.afterQuery r q).proj X.proj ∧ (X.afterQuery r q).aux = X.aux ∧
+      (X.afterQuery r q).kind = X.kind := by
+  rcases hq with rfl | rfl | rfl <;> exact ⟨normalizeRows_pos hr X.proj hp, rfl, rfl⟩
+
+/-- `TangentVector.normalized` / `angle`: the primary data is untouched, the derived rows are
+rescaled positively -/
+theorem query_tangent_normalized_projEq (hr : RootNonneg r) (X : Obj K) {a : ND K} {s : List ℕ} {m : ℕ}
+    (ha : X.aux = some a) (hs : a.shape = s ++ [2, m]) :
+    (X.afterQuery r .tangentNormalized).proj = X.proj ∧
+    ∃ a', (X.afterQuery r .tangentNormalized).aux = some a' ∧ RowsPosEq a' a :=
+  ⟨rfl, normalizeSecondRows r a, by simp [Obj.afterQuery, ha], normalizeSecondRows_pos hr a hs⟩
+
+/-- `TangentVector.origin_to` / `isometry_to` / `point_along`: `normalize` and then Gram–Schmidt run
+in place on the derived data; under `Inv` (and a non-null base point) the Gram–Schmidt
+subtraction vanishes and every derived row is only rescaled positively -/
+theorem query_tangent_originTo_projEq (hr : RootNonneg r) {X : Obj K} (hk : X.kind = .tangent)
+    (hInv : Inv r X) {o : List ℕ} {n : ℕ} (hp : X.proj.shape = o ++ [2, n])
+    (htl : ∀ i, Valid o i →
+      bil (minkJ n) (fun c : Fin n => X.proj.get (i ++ [0, c.1])) (fun c : Fin n => X.proj.get (i ++ [0, c.1])) ≠ 0) :
+    (X.afterQuery r .tangentOriginTo).proj = X.proj ∧
+    ∃ a a', X.aux = some a ∧ (X.afterQuery r .tangentOriginTo).aux = some a' ∧ RowsPosEq a' a := by
+  refine ⟨rfl, ?_⟩
+  rcases hInv with ⟨h0, _⟩ | ⟨_, a, o2, t2, n2, ha, hp2, hs, hg⟩
+  · rw [hk] at h0; simp [Kind.auxNdims] at h0
+  · obtain ⟨rfl, rfl, rfl⟩ := shape_decomp_unique (hp.symm.trans hp2)
+    have hs' : a.shape = o ++ [2, n] := by rw [hs, hk]; simp [auxRows]
+    refine ⟨a, tangentOriginWriteND r a, ha, by simp [Obj.afterQuery, ha], ?_⟩
+    refine tangentOriginWriteND_pos hr a hs' ?_
+    intro i hi
+    rw [hk] at hg
+    obtain ⟨c0, _, g0⟩ := hg i [0] hi (by simp [auxRows])
+    obtain ⟨c1, _, g1⟩ := hg i [1] hi (by simp [auxRows])
+    set P : Matrix (Fin 2) (Fin n) K := Matrix.of fun a b => X.proj.get (i ++ [a.1, b.1]) with hP
+    refine tangent_aux_orth (P 0) (P 1) _ _ c0 c1 (htl i hi) minkJ_symm ?_ ?_
+    · funext c
+      have := g0 c.1 c.2
+      simp only [List.append_assoc, List.singleton_append, List.cons_append, List.nil_append, auxEntry,
+        c.2, and_true, Nat.ofNat_pos, dite_true] at this
+      rw [this]
+      simp [tangentProj, tanMix, hP]
+    · funext c
+      have := g1 c.1 c.2
+      simp only [List.append_assoc, List.singleton_append, List.cons_append, List.nil_append, auxEntry,
+        c.2, and_true, Nat.one_lt_ofNat, dite_true] at this
+      rw [this]
+      simp [tangentProj, tanMix, hP, mul_div_assoc]
+
+/-- the hypotheses of the query theorems are satisfiable: `Real.sqrt`-like roots exist on ℚ for
+the squares the generator supplies, e.g. the identity on non-negatives is `RootNonneg` -/
+example : RootNonneg (fun x : ℚ => x) := fun _ h => h
+
+example : PosProjEq (normalizeRow (fun x : ℚ => x) ![(2 : ℚ), 0, 0]) ![2, 0, 0] :=
+  normalize_row_posScale (fun _ h => h) _
+
+end query
+
+end GT.C11
